@@ -82,7 +82,7 @@ func unknownName(tok string) (name string, arg string, hasArg bool, long bool) {
 func c07Run(c *Ctx) {
 	r := c.R
 	policy := []string{"fail", "ignore", "handler"}[c.K%3]
-	opts := []flags.Options{0, flags.PassDoubleDash, flags.HelpFlag | flags.PassDoubleDash, flags.HelpFlag}[(c.K/3)%4]
+	opts := []flags.Options{0, flags.PassDoubleDash, flags.HelpFlag | flags.PassDoubleDash, flags.HelpFlag, flags.PassAfterNonOption, flags.PassAfterNonOption | flags.PassDoubleDash}[(c.K/3)%6]
 	if policy == "ignore" {
 		opts |= flags.IgnoreUnknown
 	}
@@ -110,10 +110,40 @@ func c07Run(c *Ctx) {
 	cur := cmdBefore(d, valid, pos)
 	scope := d.ScopeOf(cur)
 	// choose the unknown token
-	kind := []string{"near-miss", "near-miss", "out-of-scope", "cluster", "no-flag-field"}[(c.K/12)%5]
+	kind := []string{"near-miss", "near-miss", "out-of-scope", "cluster", "no-flag-field", "after-sibling-word"}[(c.K/12)%6]
 	var tok, name string
 	cluster := false
+	var extraWord []string
 	switch kind {
+	case "after-sibling-word":
+		// optional sub-commands: the name of a sibling of the current command is an ordinary word here, and an option
+		// that only that sibling defines stays unknown after it
+		if !(cur.Parent != nil && len(cur.Subs) > 0 && cur.SubOptional && cur.Pos == nil && pos == pi && policy == "fail" && opts&flags.PassAfterNonOption == 0) {
+			kind = "near-miss"
+			break
+		}
+		var sib *Cmd
+		var so *Opt
+		for _, s := range cur.Parent.Subs {
+			if s == cur {
+				continue
+			}
+			for _, o := range s.OwnOpts() {
+				if o.Long != "" && scope.Long[d.FullLong(o)] == nil {
+					sib, so = s, o
+				}
+			}
+		}
+		if sib == nil || scope.Cmds[sib.Name] != nil {
+			kind = "near-miss"
+			break
+		}
+		extraWord = []string{sib.Name}
+		name = d.FullLong(so)
+		tok = "--" + name
+		if !so.T.IsFlag() {
+			tok += "=" + GenScalarTextSimple(r, so)
+		}
 	case "no-flag-field":
 		// a name declared only inside a struct field tagged no-flag is not an option
 		var nfs []*NoFlagField
@@ -203,7 +233,7 @@ func c07Run(c *Ctx) {
 			}
 		}
 	}
-	fault := &Item{Kind: IFault, Toks: []string{tok}, Note: "unknown " + kind}
+	fault := &Item{Kind: IFault, Toks: append(append([]string{}, extraWord...), tok), Note: "unknown " + kind}
 	var items []*Item
 	items = append(items, valid[:pos]...)
 	items = append(items, fault)
@@ -211,7 +241,7 @@ func c07Run(c *Ctx) {
 	args := RenderItems(d, items)
 	// the arguments not yet consumed when the unknown token is met
 	before := len(RenderItems(d, valid[:pos]))
-	pending := args[before+1:]
+	pending := args[before+1+len(extraWord):]
 	b := d.Build()
 	if b.Err != nil {
 		c.Violate("setup-error", "generated declaration rejected: %v", b.Err)
